@@ -222,6 +222,8 @@ impl<'a, 'de, R: Reader<'de>> DepthGuard<'a, R> {
     fn guard(de: &'a mut Deserializer<R>) -> Result<Self> {
         de.remaining_depth -= 1;
         if de.remaining_depth == 0 {
+            // no guard is returned, restore the budget here
+            de.remaining_depth += 1;
             return Err(de.parser.error(RecursionLimitExceeded));
         }
         Ok(Self { de })
@@ -467,8 +469,8 @@ impl<'de, 'a, R: Reader<'de>> de::Deserializer<'de> for &'a mut Deserializer<R> 
             },
             b'[' => {
                 let ret = {
-                    let _ = DepthGuard::guard(self);
-                    visitor.visit_seq(SeqAccess::new(self))
+                    let guard = tri!(DepthGuard::guard(self));
+                    visitor.visit_seq(SeqAccess::new(&mut *guard.de))
                 };
                 match (ret, self.end_seq()) {
                     (Ok(ret), Ok(())) => Ok(ret),
@@ -477,8 +479,8 @@ impl<'de, 'a, R: Reader<'de>> de::Deserializer<'de> for &'a mut Deserializer<R> 
             }
             b'{' => {
                 let ret = {
-                    let _ = DepthGuard::guard(self);
-                    visitor.visit_map(MapAccess::new(self))
+                    let guard = tri!(DepthGuard::guard(self));
+                    visitor.visit_map(MapAccess::new(&mut *guard.de))
                 };
                 match (ret, self.end_map()) {
                     (Ok(ret), Ok(())) => Ok(ret),
@@ -751,8 +753,8 @@ impl<'de, 'a, R: Reader<'de>> de::Deserializer<'de> for &'a mut Deserializer<R> 
         let value = match peek {
             b'[' => {
                 let ret = {
-                    let _ = DepthGuard::guard(self);
-                    visitor.visit_seq(SeqAccess::new(self))
+                    let guard = tri!(DepthGuard::guard(self));
+                    visitor.visit_seq(SeqAccess::new(&mut *guard.de))
                 };
                 match (ret, self.end_seq()) {
                     (Ok(ret), Ok(())) => Ok(ret),
@@ -797,8 +799,8 @@ impl<'de, 'a, R: Reader<'de>> de::Deserializer<'de> for &'a mut Deserializer<R> 
         let value = match peek {
             b'{' => {
                 let ret = {
-                    let _ = DepthGuard::guard(self);
-                    visitor.visit_map(MapAccess::new(self))
+                    let guard = tri!(DepthGuard::guard(self));
+                    visitor.visit_map(MapAccess::new(&mut *guard.de))
                 };
                 match (ret, self.end_map()) {
                     (Ok(ret), Ok(())) => Ok(ret),
@@ -829,8 +831,8 @@ impl<'de, 'a, R: Reader<'de>> de::Deserializer<'de> for &'a mut Deserializer<R> 
         let value = match peek {
             b'[' => {
                 let ret = {
-                    let _ = DepthGuard::guard(self);
-                    visitor.visit_seq(SeqAccess::new(self))
+                    let guard = tri!(DepthGuard::guard(self));
+                    visitor.visit_seq(SeqAccess::new(&mut *guard.de))
                 };
                 match (ret, self.end_seq()) {
                     (Ok(ret), Ok(())) => Ok(ret),
@@ -839,8 +841,8 @@ impl<'de, 'a, R: Reader<'de>> de::Deserializer<'de> for &'a mut Deserializer<R> 
             }
             b'{' => {
                 let ret = {
-                    let _ = DepthGuard::guard(self);
-                    visitor.visit_map(MapAccess::new(self))
+                    let guard = tri!(DepthGuard::guard(self));
+                    visitor.visit_map(MapAccess::new(&mut *guard.de))
                 };
                 match (ret, self.end_map()) {
                     (Ok(ret), Ok(())) => Ok(ret),
@@ -872,8 +874,8 @@ impl<'de, 'a, R: Reader<'de>> de::Deserializer<'de> for &'a mut Deserializer<R> 
             Some(b'{') => {
                 self.parser.read.eat(1);
                 let value = {
-                    let _ = DepthGuard::guard(self);
-                    tri!(visitor.visit_enum(VariantAccess::new(self)))
+                    let guard = tri!(DepthGuard::guard(self));
+                    tri!(visitor.visit_enum(VariantAccess::new(&mut *guard.de)))
                 };
 
                 match self.parser.skip_space() {
